@@ -15,6 +15,9 @@ type EV struct {
 	T types.Type
 }
 
+// arrType is the pseudo Go type of mathematical integer arrays in contracts.
+var arrType types.Type = types.NewNamed(types.NewTypeName(0, nil, "arr", nil), types.NewStruct(nil, nil), nil)
+
 type CEnv struct {
 	vars map[string]EV
 	st   *State
@@ -25,6 +28,7 @@ type CEnv struct {
 	at   *ssa.BasicBlock
 	over map[ssa.Value]Value
 	loop *loopInfo
+	atIdx int // >0: names defined before this instruction index in block `at` are visible too
 }
 
 func (e *CEnv) with(name string, v EV) *CEnv {
@@ -48,10 +52,15 @@ func (tr *Tr) frameEnv(fr *Frame, st *State, at *ssa.BasicBlock, over map[ssa.Va
 	} else if fr.fn.Origin() != nil && fr.fn.Origin().Pkg != nil {
 		pkg = fr.fn.Origin().Pkg.Pkg
 	}
-	return &CEnv{vars: map[string]EV{}, st: st, old: old, pkg: pkg, fr: fr, at: at, over: over, loop: li}
+	return &CEnv{vars: map[string]EV{}, st: st, old: old, pkg: pkg, fr: fr, at: at, over: over, loop: li, atIdx: -1}
 }
 
 func (tr *Tr) evalBool(env *CEnv, e CExpr) string {
+	tr.evalDepth++
+	if tr.evalDepth == 1 {
+		tr.curClause = e.String()
+	}
+	defer func() { tr.evalDepth-- }()
 	v, _ := tr.evalC(env, e)
 	s, ok := v.(Sc)
 	if !ok || !s.Bool {
@@ -186,7 +195,7 @@ func (tr *Tr) evalIdent(env *CEnv, name string) (Value, types.Type) {
 		return ev.V, ev.T
 	}
 	if env.fr != nil {
-		if d, ok := env.fr.lookupName(name, env.at); ok {
+		if d, ok := env.fr.lookupNameAt(name, env.at, env.atIdx-1+1); ok {
 			saved := env.fr.over
 			env.fr.over = env.over
 			v := tr.val(env.fr, d.val)
@@ -200,6 +209,16 @@ func (tr *Tr) evalIdent(env *CEnv, name string) (Value, types.Type) {
 		}
 		if name == "iter" && env.loop != nil && env.loop.enum != nil {
 			return env.st.vars[env.loop.enum.counter], nil
+		}
+		if name == "iter" {
+			// range-over-slice loop: the hidden index phi holds the index of the last completed iteration (-1 initially)
+			if d, ok := env.fr.lookupName("rangeindex", env.at); ok {
+				saved := env.fr.over
+				env.fr.over = env.over
+				v := tr.val(env.fr, d.val)
+				env.fr.over = saved
+				return Sc{T: sAdd(tr.asSc(v, nil).T, "1")}, nil
+			}
 		}
 	}
 	// package-level constant or variable
@@ -335,6 +354,10 @@ func (tr *Tr) specEqual(a, b Value, t types.Type) string {
 		}
 	case LocV:
 		return tr.specEqual(Sc{T: tr.asRef(x)}, b, t)
+	case Ar:
+		if y, ok := b.(Ar); ok {
+			return sEq(x.T, y.T)
+		}
 	}
 	panic(subsetErr(fmt.Sprintf("equality between %T and %T", a, b)))
 }
@@ -484,6 +507,9 @@ func findField(st *types.Struct, name string) (int, types.Type, []int) {
 
 func (tr *Tr) evalIndex(env *CEnv, x *CIndex) (Value, types.Type) {
 	v, t := tr.evalC(env, x.X)
+	if a, ok := v.(Ar); ok {
+		return Sc{T: sSel(a.T, tr.evalInt(env, x.I))}, nil
+	}
 	if t == nil {
 		panic(subsetErr("index on untyped contract expression " + x.String()))
 	}
@@ -544,6 +570,9 @@ func (tr *Tr) resolveCType(env *CEnv, ct CType) types.Type {
 		if base == nil && ct.Name == "ref" {
 			base = types.Typ[types.UnsafePointer]
 		}
+		if base == nil && ct.Name == "arr" {
+			base = arrType
+		}
 	} else if p := tr.g.pkgByName(env.pkg, ct.Pkg); p != nil {
 		if obj := p.Scope().Lookup(ct.Name); obj != nil {
 			base = obj.Type()
@@ -570,6 +599,11 @@ func (tr *Tr) evalQuant(env *CEnv, q *CQuant) (Value, types.Type) {
 		tr.fresh++
 		sym := smtName(fmt.Sprintf("%s?%d", b.Name, tr.fresh))
 		var v Value
+		if t == arrType {
+			decls = append(decls, "("+sym+" (Array Int Int))")
+			n = n.with(b.Name, EV{V: Ar{T: sym}, T: arrType})
+			continue
+		}
 		switch kindOf(t) {
 		case kBool:
 			decls = append(decls, "("+sym+" Bool)")
@@ -604,16 +638,12 @@ func (tr *Tr) evalQuant(env *CEnv, q *CQuant) (Value, types.Type) {
 		}
 		pat = " :pattern (" + strings.Join(ps, " ") + ")"
 	}
+	tr.fresh++
+	qid := fmt.Sprintf(" :qid Q%d_%s", tr.fresh, q.Binders[0].Name)
 	if q.Forall {
-		b := sImp(rng, body)
-		if pat != "" {
-			b = "(! " + b + pat + ")"
-		}
+		b := "(! " + sImp(rng, body) + pat + qid + ")"
 		return boolV("(forall (" + strings.Join(decls, " ") + ") " + b + ")"), types.Typ[types.Bool]
 	}
-	b := sAnd(rng, body)
-	if pat != "" {
-		b = "(! " + b + pat + ")"
-	}
+	b := "(! " + sAnd(rng, body) + pat + qid + ")"
 	return boolV("(exists (" + strings.Join(decls, " ") + ") " + b + ")"), types.Typ[types.Bool]
 }
